@@ -1,6 +1,6 @@
 (* C09: obligations over the generated tables (Gen/NsScope.v, Gen/FieldSpecs.v), theorems instantiated
    at them, examples. *)
-From KV Require Import Res.Labels Res.LabelsProofs Res.Namespace Res.NamespaceProofs.
+From KV Require Import Res.Labels Res.LabelsProofs Res.Namespace Res.NamespaceProofs Res.NamespaceTree.
 From KV Require Import Gen.NsScope Gen.FieldSpecs.
 
 (* the precomputed scope table answers every well-known type the way Kubernetes does, and no key twice *)
@@ -62,6 +62,19 @@ Theorem outermost_wins_default : forall (ds : list string) (obj obj' : node),
   outermost ds <> "" -> ns_chain gen_ns_scope gen_namespace_fs ds obj = Ok obj' ->
   obj_namespace obj' = outermost ds.
 Proof. apply (outermost_wins gen_ns_scope gen_namespace_fs gen_namespace_rows_clear). Qed.
+
+(* whole trees: every output resource of a build comes from a resource of some layer, and if that resource is
+   not cluster-scoped it sits in the namespace of the outermost directive between its layer and the root *)
+Theorem build_outermost_wins : forall (l : nlayer) (out : list node),
+  accumulate_ns gen_ns_scope gen_namespace_fs l = Ok out ->
+  Forall (fun o => exists r ch, nreaches l r ch /\
+                   (meta_not_seq r = true -> obj_cluster_scoped gen_ns_scope r = false ->
+                    outermost ch <> "" -> obj_namespace o = outermost ch)) out.
+Proof.
+  intros l out H. pose proof (ns_build_outputs_are_chain_images gen_ns_scope gen_namespace_fs l out H) as HF.
+  eapply Forall_impl; [|exact HF]. intros o (r & ch & Hr & Hc). exists r, ch. split; [exact Hr|].
+  intros Hm Hcs Ho. apply (outermost_wins_default ch r o Hm Hcs Ho Hc).
+Qed.
 
 (* ----- examples (non-vacuity and the error branch) ----- *)
 Definition sc (s : string) : node := Scalar TStr SPlain s.
